@@ -267,9 +267,12 @@ class Run(RunBase):
             [{"op": "foreign", "k": k1, "pt": rng.randrange(16), "scribble": True, "x": 2.0, "accessor": False, "setrates": False},
              {"op": "clearcache"}],
             # away to another range, change the k-mesh there, and back
-            [{"op": "regen", "N": self.w["ranges"][-1]}, {"op": "regrid", "n": self.w["grids"][-1], "adopt": True},
-             {"op": "regen", "N": self.w["ranges"][0]}, {"op": "regrid", "n": self.w["grids"][0], "adopt": rng.random() < 0.5},
-             {"op": "regen", "N": self.w["ranges"][-1]}]))
+            [{"op": "regen", "N": ([r for r in self.w["ranges"] if r != self.N] or [self.N])[0]},
+             {"op": "regrid", "n": ([g for g in self.w["grids"] if g != self.NGF] or [self.NGF])[0], "adopt": True},
+             {"op": "regen", "N": self.N}],
+            [{"op": "regen", "N": ([r for r in self.w["ranges"] if r != self.N] or [self.N])[0]},
+             {"op": "regrid", "n": ([g for g in self.w["grids"] if g != self.NGF] or [self.NGF])[0], "adopt": True},
+             {"op": "regen", "N": self.N}]))
         tail_ = [call(k2)] if rng.random() < 0.6 else [call(k2), call(k1)]
         if self.prop == "C13":
             mid = [self.gen_fork(rng)]
